@@ -139,7 +139,7 @@ func c19(ctx *core.Ctx) {
 	quietLogs()
 	ctx.Rule("generated configurations (route table on the router's full template fragment, recording filters at all three levels labelled with their route/service, a filter writing a per-request attribute and a per-request key into PathParameters(), a HandleWithFilter handler, handlers that read the raw request body, an echo route reading gzip-encoded entities that arrive in small slices, 0-5 extra container filters, CORS filter with configured or computed methods, OPTIONS filter, content encoding with the sync.Pool or a bounded(1,1) compressor provider, handlers writing raw bytes or negotiated entities, streaming handlers that Flush their first chunk, handlers switching PrettyPrint off for their own entity; both routers; Dispatch or ServeHTTP). For each request of a multiset of 40 (hits, near misses, adversarial, a parameter-less resource in two representations each way asked for with matching and non-matching media headers, malformed Accept, CORS actual and preflight requests for different URLs, Accept-Encoding) the reference is the answer of a FRESH container to that request alone through the same entry point; for every 5th (thorough: 25th) configuration the fresh-container answers are also computed by two further PROCESSES of this binary that serve the multiset in reverse and in shuffled order, and must be the same (state left behind in package-level variables would otherwise pollute reference and history alike). Before anything else a cold-start burst: 16 clients send the same request at once as the first requests through a route whose expressions the process has never used. Then (a) a 200-request sequential history in random order with repetitions, every 5th step preceded by the same request from a client whose connection fails on every body write, (b) batches released together from 16 (now and then 70) goroutines, (c) the sequential history again with trace logging on: status, all headers, decoded body, path parameters, selected route and attributes seen by every filter/handler must equal the reference. Race detector on. Non-trivial = a compared response of a request that ran at least one filter or handler; distinct by (configuration shape, phase, outcome class).")
 	ctx.Assume("the reference is per (request, entry point): ServeHTTP answers unregistered prefixes from net/http's mux")
-	defer restful.EnableTracing(false)
+	defer setTracing(false, 0)
 	defer restful.SetCompressorProvider(restful.NewSyncPoolCompessors())
 	configs := ctx.N(50, 1500)
 	// child mode (see firstInAnotherProcess): this process only computes the fresh-container answers of ONE configuration,
@@ -324,7 +324,7 @@ func c19(ctx *core.Ctx) {
 		}
 		// reference: a fresh container per request
 		refs := make([]string, len(reqs))
-		restful.EnableTracing(false)
+		setTracing(false, ci/2)
 		if childCi >= 0 {
 			sigs := map[int]string{}
 			for _, i := range orderOf(childOrder, len(reqs), ctx.Seed+uint64(ci)) {
@@ -414,11 +414,11 @@ func c19(ctx *core.Ctx) {
 		}
 		// (c) trace logging on
 		before := atomic.LoadInt64(&tap.n)
-		restful.EnableTracing(true)
+		setTracing(true, ci/2)
 		for _, i := range hist[:80] {
 			compare(i, rt.Run(c, cf.Entry, &reqs[i]), "trace-on")
 		}
-		restful.EnableTracing(false)
+		setTracing(false, ci/2)
 		ctx.Count("trace_lines", int(atomic.LoadInt64(&tap.n)-before))
 		// and once more sequentially after the concurrent phase (nothing may have stuck)
 		for _, i := range hist[:40] {
